@@ -30,9 +30,13 @@ def run_check(prop: str, tier: str, src_root: str, write: bool = True, quiet: bo
         rep.analysed["modules"] = len(model.modules)
         rep.analysed["classes"] = sum(len(m.classes) for m in model.modules.values())
         mod.check(model, rep, tier)
-        from .rules.common import python_slips_rule
+        from .rules.common import python_slips_rule, depth_budget_rule, DEPTH_BUDGET_RULES
         with rep.isolated():
             python_slips_rule(model, rep, prop)
+        if prop in DEPTH_BUDGET_RULES:
+            # every property that lists, times, indexes or exports the operations of a circuit rests on the complete layer walk
+            with rep.isolated():
+                depth_budget_rule(model, rep, DEPTH_BUDGET_RULES[prop])
         if rep.undecided:
             known = {(k.get("rule"), k.get("construct"), k.get("detail", "")) for k in __import__("qcolint.report", fromlist=["load_known"]).load_known() if k.get("property") == prop}
             definite = [v for v in rep.violations() if (v["rule"], v["construct"], v.get("detail", "")) not in known]
